@@ -231,15 +231,23 @@ impl Format {
                         break;
                     }
                     cur_item_idx += 1;
-                    match self.items[cur_item_idx] {
+                    // NOTE: there is no next item after the last of the MAX_TOKENS items.
+                    match self.items.get(cur_item_idx).copied().flatten() {
                         Some(item) => {
                             cur_item = item;
                             cur_token = cur_item.token;
+                            idx
                         }
-                        None => break,
+                        None => {
+                            if idx == s.len() - 1 {
+                                // This character ends the string and the last token (e.g. a month name):
+                                // it is part of that token, which is parsed below.
+                                idx + 1
+                            } else {
+                                break;
+                            }
+                        }
                     }
-
-                    idx
                 } else {
                     idx + 1
                 };
